@@ -4,6 +4,7 @@ import E57.Drv.Writer
 import E57.Drv.Reader
 import E57.Drv.Spec
 import E57.Drv.Enc
+import E57.Drv.Tools
 open E57 E57.Drv
 
 def dispatch (engine : String) (toks : List String) : String :=
@@ -11,11 +12,14 @@ def dispatch (engine : String) (toks : List String) : String :=
   | "bits" => bitsLine toks
   | "pages" => pagesLine toks
   | "writer" => writerLine toks
+  | "device" => writerLine toks
   | "reader" => readerLine toks
   | "layout" => readerLine toks
   | "foreign" => readerLine toks
   | "spec" => specLine toks
   | "enc" => encLine toks
+  | "tools" => toolsLine toks
+  | "copy" => writerLine toks
   | _ => "BADENGINE"
 
 partial def loop (engine : String) (h : IO.FS.Stream) (out : IO.FS.Stream) : IO Unit := do
